@@ -306,6 +306,9 @@ class HSink(object):
             if ent is None:
                 body = z3.Const(eng.fresh("%s!chunk" % (v.tag or "bytes")), z3.SeqSort(z3.IntSort()))
                 tab[id(v)] = ent = (v, body)
+                ln = eng.__dict__.get("opaque_lens", {}).get(id(v))
+                if ln is not None:
+                    eng.run.pc.append(z3.Length(body) == _ie(ln[1]))
             self.seq = z3.Concat(self.seq, ent[1])
         else:
             raise Unsupported("write of %s to a byte sink" % type(v).__name__)
